@@ -38,6 +38,85 @@ CLAIMS = {
     ),
 }
 
+CLAIMS.update({
+    "C03": _c(
+        "Static analysis of the interval arithmetic: every monotone op takes each result bound from the bound its "
+        "monotonicity dictates (variance-directed bound selection, through local definitions), the interval interpreter "
+        "loop and the x86_64 interval assembler (dataflow: write discipline, alias/immediate hazards, call-helper copy "
+        "propagation, choice protocol, callbacks, sibling constants) and the homogeneous transform of boxes.",
+        "static analysis: variance/role lint over the syntax tree + dataflow over the hand-written assembly",
+    ),
+    "C05": _c(
+        "Static analysis with an algebraic normaliser: for every smooth Grad method the value is the op on values and "
+        "dx, dy, dz equal the chain rule with symbolic seeds (sympy identity between source expressions); piecewise ops "
+        "return one operand whole under a value-only condition; every Context::deriv arm equals the chain rule, zero, or "
+        "(finite ordering enumeration over the builder DSL) the selected operand's derivative; gradient interpreter loop; "
+        "Transformable for Grad; x86_64 gradient assembler dataflow.",
+        "static analysis: expression-identity obligations between source expressions (sympy) + table lint + asm dataflow",
+    ),
+    "C06": _c(
+        "Static analysis of the 2D renderer: inside/outside fills only under strict upper()<0 / lower()>0 guards and never "
+        "in pixel-perfect mode, children and pixels use the handle simplified by this tile's own trace, root grid / child "
+        "loops / tile-size invariants / assembly bounds cover the image, and pixel (i,j) is sampled at (corner+i, corner+j, z).",
+        "static analysis: guard-shape, coverage-arithmetic and role-consistency lint over the renderer's syntax tree",
+    ),
+    "C07": _c(
+        "Static analysis of the 3D renderer: full/empty decisions only under strict guards, every z iteration descending "
+        "with the matching first-hit search and index flip, depth = voxel index + 1, unchecked writes behind length "
+        "assertions, unit gradient seeds in axis order, and a merge clamp that compares with and assigns the grid depth.",
+        "static analysis: guard-shape, ordering and clamp-consistency lint over the renderer's syntax tree",
+    ),
+    "C10": _c(
+        "Static analysis that no named piece of state survives a reuse boundary: every evaluator unconditionally sizes "
+        "(and for choices refills) its buffers from the tape before evaluating, reset() of allocator / workspace / tapes "
+        "re-initialises every field of its struct, simplify resets recycled storage, recycled executable memory is "
+        "overwritten from offset 0 and grown before a write past capacity, pointer lists are cleared before each refill.",
+        "static analysis: field-coverage and ordering (must-precede, unconditional) lint over linearised call facts",
+    ),
+    "C11": _c(
+        "Static analysis: all eight evaluators check their arguments first and propagate the error; a float-class "
+        "abstract interpretation (nine classes per bound, every well-formed assignment, three-valued guards) shows that no "
+        "analysed Interval::new site can receive one NaN and one non-NaN bound; unreachable!() defaults are justified by the "
+        "range of their scrutinee; panic-capable sites in the per-op data path equal a justified inventory; buffers are sized first.",
+        "static analysis: float-class abstract interpretation of interval constructors + dominance/inventory lints",
+    ),
+    "C12": _c(
+        "Static analysis with an algebraic normaliser: every constructor rewrite arm is an identity over the reals under "
+        "its premise (sympy), comparison/logic constructors meet their truth tables on every ordering, zero-ness and "
+        "constness of operands (finite enumeration over the builder DSL), constructors build their namesake opcode in "
+        "operand order and fold through the opcode's eval, import/export push and pop operands in matching order, TreeOp "
+        "eq/hash cover the same payload and walk the same children unconditionally, drop/eq/hash/import/export/deriv are loops.",
+        "static analysis: expression-identity obligations (sympy) + finite case enumeration + pairing/field-coverage lint",
+    ),
+    "C13": _c(
+        "Static analysis: RemapAffine/RemapAxes nodes are constructed only by the flattening builder API (who-may-construct "
+        "over the whole repository), flattening multiplies existing*new onto the inner target, every importer frame push is "
+        "paired with its pop so that the target runs inside the frame, the import cache is keyed by (frame, pointer), and "
+        "axes read their own component of the innermost frame; affine rows combine columns with axes in order.",
+        "static analysis: who-may-construct, pairing and role-consistency lint (with sympy for the affine row)",
+    ),
+    "C14": _c(
+        "Static analysis: X/Y/Z and free variables are bound by identity at the variable's own index in both shape "
+        "evaluators, the transform is applied in axis order, VarMap assigns an index once (get_or_insert) and only in "
+        "insert, missing variables and short/ragged argument lists are errors, and Transformable for f32/Interval/Grad are "
+        "the same homogeneous transform.",
+        "static analysis: axis/role-consistency and sibling-agreement lint",
+    ),
+    "C15": _c(
+        "Static analysis of the serializer: each RegOp maps to its namesake opcode, the byte layout of every operand form "
+        "matches the documented format (registers only through store_reg, 0xFF marks, immediates, memory rebasing with "
+        "max-accumulated counts), framing markers, opcode numbering equals the advertised table, and register visiting "
+        "covers exactly the register fields (repacking).",
+        "static analysis: table-agreement lint between the serializer, the opcode enum and the documented layout",
+    ),
+    "C16": _c(
+        "Static analysis with an algebraic normaliser: named axes/planes denote what their names say, each primitive and "
+        "CSG combinator equals its documented closed form (sympy identity), transforms apply the inverse of their action "
+        "on the axis their name says, and RevolveY's Move/remap/Move composition is a revolve about x = offset.",
+        "static analysis: expression-identity obligations between source expressions and documented closed forms (sympy)",
+    ),
+})
+
 PENDING = "check not built yet in this round (static rules planned in DESIGN.md section 3)"
 NOT_APPLICABLE = {("C%02d" % i): PENDING for i in range(1, 21)}
 
